@@ -22,6 +22,8 @@ FLOORS["op:set-ref-null-then-same"] = 150
 FLOORS["op:derive-extended-class"] = 150
 FLOORS["families_with_limited_array_attributes"] = 300
 FLOORS["forced_moves_of_objects_with_references"] = 100
+FLOORS["refarr_steps"] = 2000
+FLOORS["refarr_attribute_checks"] = 5000
 FLOORS["limited_array_attribute_assignments"] = 100
 RULE = ("generated hybrid class families (2-3 levels: scalars, strings, numeric arrays of any shape, nested hybrids, "
         "references to hybrids, renamed fields) in two buffers; histories of <=20 steps over {set scalar/string/array/"
@@ -59,7 +61,137 @@ def subobjects(t):
     return out
 
 
+def _refarr_case(w, rng):
+    """Hybrid classes whose field is a reference to a NUMERIC ARRAY (xo.Ref[xo.Float64[:]]): the attribute denotes the
+    referenced array object; binding an array of the same buffer shares it, plain data makes a new independent array,
+    None nulls it; writes through the attribute and through the array's own handle are one thing."""
+    from xv.typegen import SC, DT, _uid
+    sn = rng.choice(["Float64", "Int64", "Int32", "Float32"])
+    dt = DT[sn]
+    A = SC[sn][:]
+    ns = {"_xofields": {"k": xo.Int64, "arr": xo.Ref[SC[sn][:]], "b": xo.Float64[:]}}
+    pn = "arr"
+    if rng.random() < 0.4:
+        ns["_rename"] = {"arr": "py_arr"}
+        pn = "py_arr"
+    H = type(f"HyRefArr{next(_uid)}", (xo.HybridClass,), ns)
+    envA = Env(rng, ctx=ctxs()[0], neighbours=rng.choice([0, 2]), kind="numpy")
+    envB = Env(rng, ctx=ctxs()[0], neighbours=0, kind="numpy")
+    info = dict(kind="hybrid reference to a numeric array", item=sn, renamed=pn != "arr", A=envA.placement())
+    hist, seen = [], set()
+    ctr = [rng.randint(1, 50)]
+
+    def viol(mech, msg):
+        if mech not in seen:
+            seen.add(mech)
+            w.violation(mech, msg, dict(info, history=hist[-12:]))
+
+    def fresh(n):
+        ctr[0] += n
+        return (np.arange(n) + ctr[0]).astype(dt)
+
+    arrays = {}   # id -> [model ndarray, handle or None, env]
+    holders = []  # [obj, model ref id or None]
+
+    def new_array(env, n=None):
+        m = fresh(rng.randint(1, 4) if n is None else n)
+        i = len(arrays) + 1
+        arrays[i] = [m, A(m.copy(), _buffer=env.buf), env]
+        return i
+
+    def check(step):
+        for i, (m, h, env) in arrays.items():
+            if h is None:
+                continue
+            got = h.to_nparray()
+            w.count("refarr_array_checks")
+            if got.shape != m.shape or got.tobytes() != m.tobytes():
+                viol(f"after-{step}:array-object-changed", f"array #{i}: read {got.tolist()!r:.80}, model {m.tolist()!r:.80}")
+        for hi, (obj, rid) in enumerate(holders):
+            for view, got in (("py", getattr(obj, pn)), ("xo", obj._xobject.arr)):
+                w.count("refarr_attribute_checks")
+                if rid is None:
+                    if got is not None:
+                        viol(f"after-{step}:null-reference-reads-something|{view}", f"holder {hi}: {got!r:.60}")
+                    continue
+                if got is None:
+                    viol(f"after-{step}:reference-reads-None|{view}", f"holder {hi} -> array #{rid}")
+                    continue
+                m, h, env = arrays[rid]
+                a = np.asarray(got.to_nparray() if hasattr(got, "to_nparray") else got)
+                if a.shape != m.shape or a.dtype != m.dtype or a.tobytes() != m.tobytes():
+                    viol(f"after-{step}:referenced-array-differs|{view}", f"holder {hi} -> #{rid}: read {a.tolist()!r:.80}, model {m.tolist()!r:.80}")
+                elif h is not None and hasattr(got, "_offset") and (got._buffer is not h._buffer or int(got._offset) != int(h._offset)):
+                    viol(f"after-{step}:reference-does-not-denote-the-bound-array|{view}", f"holder {hi}: at {int(got._offset)}, array #{rid} lives at {int(h._offset)}")
+
+    try:
+        try:
+            for _ in range(rng.randint(1, 2)):
+                env = rng.choice([envA, envA, envB])
+                rid = new_array(env) if rng.random() < 0.6 else None
+                obj = H(k=len(holders), b=[1.0, 2.0], _buffer=env.buf, **{pn: arrays[rid][1] if rid else None})
+                holders.append([obj, rid])
+            hist.append(["construct", len(holders)])
+            check("construct")
+            for _ in range(rng.randint(4, 14)):
+                if seen:
+                    break
+                hd = rng.choice(holders)
+                obj, rid = hd
+                env = envA if obj._buffer is envA.buf else envB
+                op = rng.choice(["bind-existing", "bind-value", "bind-null", "write-through-attribute", "write-through-array", "grow", "bind-same-length"])
+                if op == "grow":
+                    w.count("growths", env.force_growth())
+                elif op == "bind-null":
+                    setattr(obj, pn, None)
+                    hd[1] = None
+                elif op in ("bind-existing", "bind-same-length"):
+                    n = arrays[rid][0].size if (rid and op == "bind-same-length") else None
+                    cand = [i for i, (m, h, e) in arrays.items() if h is not None and e is env and i != rid and (n is None or m.size == n)]
+                    i = rng.choice(cand) if cand and rng.random() < 0.6 else new_array(env, n)
+                    setattr(obj, pn, arrays[i][1])
+                    hd[1] = i
+                elif op == "bind-value":
+                    n = arrays[rid][0].size if (rid and rng.random() < 0.6) else rng.randint(1, 4)
+                    m = fresh(n)
+                    setattr(obj, pn, m.tolist() if rng.random() < 0.5 else m.copy())
+                    i = len(arrays) + 1
+                    arrays[i] = [m, None, env]   # no handle of its own: reached through the holder only
+                    hd[1] = i
+                elif rid is None:
+                    continue
+                elif op == "write-through-attribute":
+                    m = arrays[rid][0]
+                    j = rng.randrange(m.size)
+                    v = fresh(1)[0]
+                    getattr(obj, pn)[j] = v.item()
+                    m[j] = v
+                else:
+                    m, h, _e = arrays[rid]
+                    if h is None:
+                        continue
+                    j = rng.randrange(m.size)
+                    v = fresh(1)[0]
+                    h[j] = v.item()
+                    m[j] = v
+                hist.append([op, f"holder {holders.index(hd)}", f"-> #{hd[1]}"])
+                w.count("refarr_steps")
+                w.count("refarr:" + op)
+                for e in (envA, envB):
+                    e.repoison()
+                check(op)
+        except Exception as e:
+            viol(f"refarr-{exc_kind(e)}", f"{type(e).__name__}: {e}")
+        w.case(["refarr", sn, pn != "arr", [h_[0] for h_ in hist[:8]]], nontrivial=True)
+    finally:
+        envA.close()
+        envB.close()
+        flush_contracts(w, info)
+
+
 def run_case(w, rng):
+    if rng.random() < 0.06:
+        return _refarr_case(w, rng)
     levels = rng.choice([1, 1, 2])
     specs, outer = gen_family(rng, levels=levels, defaults=rng.random() < 0.4, lim_p=0.2, force_p=0.25)
     if any("lim" in s_ for s_ in specs):
